@@ -67,8 +67,19 @@ def min_cover(columns, demands):
     still open must be served by some chosen column, and the order of the columns is immaterial, so it
     is enough to branch over the columns that serve that row.
     """
-    cols = sorted({tuple(c) for c in columns if any(c)})
     m = len(demands)
+    start = tuple(int(d) for d in demands)
+    # An integer plan never profits from more than d_i copies of piece i in one column: clip, merge equal
+    # columns, drop columns dominated componentwise (a used column can be swapped for its dominator).
+    orig = {}
+    for c in sorted({tuple(c) for c in columns}):
+        cc = tuple(min(k, d) for k, d in zip(c, start))
+        if any(cc):
+            orig.setdefault(cc, c)
+    cols = []
+    for c in sorted(orig, key=lambda c: (-sum(c), c)):
+        if not any(all(a >= b for a, b in zip(k, c)) for k in cols):
+            cols.append(c)
     by_row = [[c for c in cols if c[i] > 0] for i in range(m)]
     INF = float("inf")
 
@@ -84,7 +95,6 @@ def min_cover(columns, demands):
                 best, arg = v, c
         return best, arg
 
-    start = tuple(int(d) for d in demands)
     opt = f(start)[0]
     if opt == INF:
         return None, None
@@ -92,7 +102,7 @@ def min_cover(columns, demands):
     rem = start
     while any(rem):
         c = f(rem)[1]
-        plan[c] = plan.get(c, 0) + 1
+        plan[orig[c]] = plan.get(orig[c], 0) + 1
         rem = tuple(r - k if r > k else 0 for r, k in zip(rem, c))
     return opt, plan
 
@@ -123,31 +133,40 @@ def lp_bound(columns, demands):
         if not any(c[j] for c in cols):
             return None  # dual unbounded in y_j
     k = len(cols)
-    # tableau: k constraint rows [y (m) | slack (k) | rhs], objective row holds reduced costs (max problem)
-    T = [[Fraction(c[j]) for j in range(m)] + [Fraction(int(r == q)) for q in range(k)] + [Fraction(1)] for r, c in enumerate(cols)]
-    z = [Fraction(-demands[i]) for i in rows] + [Fraction(0)] * k + [Fraction(0)]
-    basis = [m + r for r in range(k)]
+    # condensed (Tucker) tableau: basic variables label the rows, non-basic ones the columns; entry layout
+    # T[r] = coefficients of the non-basic variables + [rhs]; z = reduced costs + [objective value]
+    T = [[Fraction(c[j]) for j in range(m)] + [Fraction(1)] for c in cols]
+    z = [Fraction(-demands[i]) for i in rows] + [Fraction(0)]
+    col_var = list(range(m))  # y_j
+    row_var = [m + r for r in range(k)]  # slack of column r
     while True:
-        enter = next((j for j in range(m + k) if z[j] < 0), None)
-        if enter is None:
+        cands = [j for j in range(m) if z[j] < 0]
+        if not cands:
             return z[-1]
+        enter = min(cands, key=lambda j: col_var[j])  # Bland
         leave, ratio = None, None
         for r in range(k):
             if T[r][enter] > 0:
                 q = T[r][-1] / T[r][enter]
-                if ratio is None or q < ratio or (q == ratio and basis[r] < basis[leave]):
+                if ratio is None or q < ratio or (q == ratio and row_var[r] < row_var[leave]):
                     leave, ratio = r, q
         if leave is None:
             return None
         piv = T[leave][enter]
-        T[leave] = [v / piv for v in T[leave]]
+        prow = [v / piv for v in T[leave]]
+        prow[enter] = 1 / piv
         for r in range(k):
-            if r != leave and T[r][enter] != 0:
+            if r != leave:
                 fct = T[r][enter]
-                T[r] = [a - fct * b for a, b in zip(T[r], T[leave])]
+                if fct != 0:
+                    row = [a - fct * b for a, b in zip(T[r], prow)]
+                    row[enter] = -fct / piv
+                    T[r] = row
         fct = z[enter]
-        z = [a - fct * b for a, b in zip(z, T[leave])]
-        basis[leave] = enter
+        z = [a - fct * b for a, b in zip(z, prow)]
+        z[enter] = -fct / piv
+        T[leave] = prow
+        col_var[enter], row_var[leave] = row_var[leave], col_var[enter]
 
 
 def ceil_frac(q: Fraction) -> int:
@@ -239,7 +258,7 @@ def selftest() -> int:
     rng = random.Random(170017)
     n_cases = 0
     # (a) cutting stock: DP over maximal patterns == DP over all feasible patterns == bin packing B&B
-    for _ in range(260):
+    for _ in range(400):
         W = rng.randint(3, 12)
         n = rng.randint(1, 4)
         sizes = [rng.randint(1, W) for _ in range(n)]
@@ -265,7 +284,7 @@ def selftest() -> int:
             raise AssertionError(f"LP bound below material bound: W={W} sizes={sizes} dem={dem} lp={lp}")
         n_cases += 1
     # (b) arbitrary column pools: DP == brute force over multisets; infeasibility agrees
-    for _ in range(220):
+    for _ in range(400):
         m = rng.randint(1, 3)
         pool = [tuple(rng.choice([0, 0, 1, 1, 2, 3]) for _ in range(m)) for _ in range(rng.randint(1, 5))]
         dem = [rng.randint(0, 4) for _ in range(m)]
